@@ -186,7 +186,9 @@ def check_case(case, ctx):
             xa = np.radians(pf["alpha"].value)
             cond = 1.0 + abs(xa) / max(abs(np.sin(xa) * np.cos(xa)), 1e-300)
             slack = 8 * np.finfo(float).eps * cond * float(np.max(np.abs(want)))
-        ctx.check(err <= 1e-9 * frange + slack, "fit-column-vs-parameters", desc,
+        # (scale: the data or the fit column itself, whichever is larger - a model far from the data, e.g. the sphere
+        # series with a fitted radius 100x below the depth, has values and round-off far above the data range)
+        ctx.check(err <= 1e-9 * max(frange, float(np.max(np.abs(want)))) + slack, "fit-column-vs-parameters", desc,
                   f"max |fit - model(params_fitted)| = {err:.3e}, force range {frange:.3e}, k={k}")
         # residual column
         wres = (y[seg] - fit[seg]) * w[seg]
@@ -212,7 +214,9 @@ def check_case(case, ctx):
             ctx.check(abs(p.value - v0) <= slack, "fixed-parameter-changed", dict(desc, param=name),
                       f"{name} fixed at {v0!r} reported as {p.value!r}")
         else:
-            ctx.check(mn <= p.value <= mx, "parameter-out-of-bounds", dict(desc, param=name, k1=(k == 1)),
+            # (a contact point sitting on its bound makes the same *k ... /k round trip as the bound: 4 ulp)
+            slack = 4 * np.spacing(abs(p.value)) if (name == "contact_point" and k != 1) else 0.0
+            ctx.check(mn - slack <= p.value <= mx + slack, "parameter-out-of-bounds", dict(desc, param=name, k1=(k == 1)),
                       f"{name}={p.value!r} outside [{mn!r}, {mx!r}] (k={k})")
     if tie_factor is not None:
         name = case["init"]["tie"]
